@@ -83,6 +83,10 @@ def prepare(case):
     for l in ps.lines:
         l.fail_rate_per_year = case["rate"]
         l.repair_time_dist = StatDist(StatDistType.UNIFORM_FLOAT, UniformParameters(min_val=1.0, max_val=case.get("rep_max", 4.0)))
+    for il in getattr(ps, "ict_lines", []):
+        # communication lines fail as well (a device may be unreachable in the very increment in which its controller polls it)
+        il.fail_rate_per_year = case["rate"] * case.get("ict_factor", 1.0)
+        il.repair_time_dist = StatDist(StatDistType.UNIFORM_FLOAT, UniformParameters(min_val=1.0, max_val=4.0))
     for b in ps.buses:
         if b.name != "B0" and case["trafo_rate"]:
             b.fail_rate_per_year = case["trafo_rate"]
@@ -247,6 +251,21 @@ def gen(rng, n, nh=0):
         cases.append({"kind": "run", "spec": spec, "unit": [4, 4, 5, 5][q % 4], "dt": "1", "hours": "124", "nprof": 24,
                       "start": [0, [22, 7, 2, 23][q % 4] if q < 4 else rng.randrange(24), 0], "seed": rng.randint(0, 10 ** 6), "rate": rng.choice([0.0, 300.0]), "trafo_rate": 0.0, "rep_max": 1.5, "midnight_faults": True,
                       "entries": ["seq/nosave", "mc-debug/nosave"][: 1 + q % 2]})
+    for q in range(max(3, n // 5)):
+        # ICT-based control with a microgrid whose sensors and switches sit behind communication lines that fail often: devices are
+        # unreachable in increments in which their controller polls them
+        from . import c06
+        spec = net.rand_feeder_spec(rng, max_lines=3, ctrl="main", allow_mg=True, allow_tie=False, nfeed=1)
+        while not spec.get("mg"):
+            spec = net.rand_feeder_spec(rng, max_lines=3, ctrl="main", allow_mg=True, allow_tie=False, nfeed=1)
+        spec["mg"]["n"] = rng.choice([1, 2, 3]); spec["mg"]["discon"] = True
+        spec["mg"]["mode"] = ["survival", "full", "limited"][q % 3]
+        ps_ = net.build(dict(spec, exact=True))
+        names = [f"S{l.name}" for l in ps_.lines] + [f"I{d.name}" for d in ps_.disconnectors]
+        # a star: the controller at node 0, every device on a node of its own behind its own line
+        spec["ctrl"]["ict"] = {"n": len(names) + 1, "lines": [[0, i + 1] for i in range(len(names))], "attach": {nm: i + 1 for i, nm in enumerate(names)}}
+        cases.append({"kind": "run", "spec": spec, "unit": 3, "dt": "1", "hours": "30", "nprof": 24, "start": [0, rng.randint(0, 23), 0],
+                      "seed": rng.randint(0, 10 ** 6), "rate": 1500.0, "ict_factor": 3.0, "trafo_rate": 0.0, "entries": ["seq/save", "mc-debug/nosave"][: 1 + q % 2]})
     for _ in range(nh):
         # steps that are not binary fractions of the reporting unit: 1 h in days / weeks, 20 / 10 / 6 min in hours, 1 s in hours ...
         u, dt_s = rng.choice([(4, 3600), (4, 1800), (5, 3600), (3, 1200), (3, 600), (3, 360), (3, 60), (2, 20), (2, 1), (3, 1), (4, 7200), (3, 3600), (2, 60)])
